@@ -172,6 +172,23 @@ Proof. intros a b c. rewrite !cmp_of_real. intros H1 H2. apply rcmp_eq in H2. re
 Theorem real_cmp_eq_iff : forall a b : key, cmp_of realmode a b = Eq <-> fst a = fst b.
 Proof. intros. rewrite cmp_of_real, rcmp_eq. split; intros H; symmetry; exact H. Qed.
 
+(* the cached prefix of a node's lowest key: for real-number keys the shortcut of _lx_sblk_cmp_key is used only when the
+   whole key is cached; a truncated decimal text is never compared as a number - whatever the node-level comparison answers
+   is the answer of the complete stored key, for keys of any length *)
+Theorem prefix_shortcut_real : forall (skey kd : list Z) (kc : Z),
+  sblk_cmp_key_full memcmp realmode skey kd kc = cmp_keys memcmp realmode skey kd kc.
+Proof.
+  intros skey kd kc. unfold sblk_cmp_key_full, sblk_cmp_key. cbn [km_vnum km_real km_compound realmode orb negb andb].
+  destruct (Z.of_nat (length skey) <=? PREFIX_KEY_LEN_V2) eqn:Efull; cbn [orb].
+  - apply Z.leb_le in Efull. unfold PREFIX_KEY_LEN_V2 in Efull. rewrite firstn_length_le by (unfold PREFIX_KEY_LEN_V2; lia). reflexivity.
+  - reflexivity.
+Qed.
+(* ... and what goes wrong otherwise: the first 115 characters of a longer decimal text are another number *)
+Example truncated_real_key_is_another_number :
+  let k := repeat 48 113 ++ [56; 53; 55] in      (* 113 zeros, then 857: 116 characters *)
+  sgnc (cmp_keys memcmp realmode (firstn 115 k) k 0) <> Eq /\ sgnc (cmp_keys memcmp realmode k k 0) = Eq.
+Proof. vm_compute. split; [discriminate|reflexivity]. Qed.
+
 (* the order is numeric where the texts are plain decimals: "7" < "12", "-3" < "2", "1.25" < "1.5", "1.5" = "1.50" only up
    to the tie-break (different texts are never equal) *)
 Example real_cmp_examples :
